@@ -127,10 +127,50 @@ theorem c02_honest_accepted (nodes : List Node) (n : Node) (m : Msg)
       rw [this]
   simp [verify, hsearch, hp]
 
-/-- a missing sender token never reaches the instance -/
+/-- a missing sender token never reaches the handlers -/
 theorem c02_missing_sender_refused (i : Inst) (q : Queues) (w : Wire) (h : w.sender = none) :
-    receive i q w = (q, none) := by
+    receive i q w = (q, []) := by
   simp [receive, h]
+
+/-- the accepted-sender predicate of the statement -/
+def Sound (nodes : List Node) (x : Node × Msg) : Prop :=
+  x.1 ∈ nodes ∧ x.1.id = x.2.sender ∧ ∀ p, x.2.peer = some p → x.1.server = p
+
+theorem deliverPlain_sound (nodes : List Node) (b : List Msg) :
+    (∀ x ∈ deliverPlain nodes b, Sound nodes x) ∧ (deliverPlain nodes b).map Prod.snd <+: b := by
+  induction b with
+  | nil => simp [deliverPlain]
+  | cons m b ih =>
+    simp only [deliverPlain]
+    split
+    · simp
+    · rename_i n hv
+      refine ⟨?_, ?_⟩
+      · intro x hx
+        simp at hx
+        rcases hx with hx | hx
+        · subst hx; exact verify_some hv
+        · exact ih.1 x hx
+      · simp only [List.map_cons]
+        obtain ⟨t, ht⟩ := ih.2
+        exact ⟨t, by simp [ht]⟩
+
+/-- **both dispatch forms, handlers and channels alike**: whatever `dispatch` hands over — one slice with the
+whole batch, or the messages one by one — every element is sound. -/
+theorem c02_dispatch_sound (i : Inst) (ty : Nat) (b : List Msg) :
+    ∀ d ∈ dispatch i ty b, ∀ x ∈ d, Sound i.nodes x := by
+  intro d hd x hx
+  unfold dispatch at hd
+  split at hd
+  · cases hb : deliverBatch i.nodes b with
+    | none => simp [hb] at hd
+    | some xs =>
+      simp [hb] at hd; subst hd
+      exact (c02_batch_sound i.nodes b d hb).2 x hx
+  · simp only [List.mem_map] at hd
+    obtain ⟨y, hy, rfl⟩ := hd
+    simp at hx; subst hx
+    exact (deliverPlain_sound i.nodes b).1 _ hy
 
 /-- **every delivery of every run is sound** — for all trees, receiving nodes, aggregated and
 plain types, and all sequences of envelopes with arbitrary (claimed sender, peer) pairs. -/
@@ -143,20 +183,92 @@ theorem c02_sound (i : Inst) (q : Queues) (ws : List Wire) :
     intro d hd
     simp only [run, List.mem_append] at hd
     rcases hd with hd | hd
-    · cases hr : (receive i q w).2 with
-      | none => simp [hr] at hd
-      | some b =>
-        simp [hr] at hd; subst hd
-        unfold receive at hr
-        split at hr
-        · simp at hr
-        · rename_i s _
-          simp only at hr
-          split at hr
-          · simp at hr
-          · rename_i b' _
-            exact (c02_batch_sound i.nodes b' d hr).2
+    · unfold receive at hd
+      split at hd
+      · simp at hd
+      · simp only at hd
+        split at hd
+        · simp at hd
+        · rename_i b _
+          exact c02_dispatch_sound i w.ty b d hd
     · exact ih _ d hd
+
+/-- what `aggregate` releases for a type whose flag is not set is the single message itself -/
+theorem aggregate_plain (i : Inst) (q : Queues) (m : Msg) (h : i.agg m.ty = false) :
+    aggregate i q m = (q, some [m]) := by
+  simp [aggregate, h]
+
+/-- **never in part, never as a placeholder**: if any message of the batch `aggregate` releases has a claimed
+sender that is absent from the tree or hosted by another server than its connection's peer, *nothing* of the
+batch reaches the handler or channel — in the slice form because the first failure aborts the dispatch, in the
+one-by-one form because such a batch is a single message. -/
+theorem c02_no_partial_delivery (i : Inst) (q : Queues) (w : Wire) (s : Nat) (b : List Msg)
+    (hs : w.sender = some s)
+    (hb : (aggregate i q { ty := w.ty, sender := s, peer := w.peer, val := w.val }).2 = some b)
+    (hbad : ∃ m ∈ b, verify i.nodes m = none) :
+    (receive i q w).2 = [] := by
+  obtain ⟨m, hm, hv⟩ := hbad
+  simp only [receive, hs, hb, dispatch]
+  split
+  · simp [c02_bad_sender_not_delivered i.nodes b m hm hv]
+  · rename_i hf
+    have hf' : i.agg w.ty = false := by simpa using hf
+    have := aggregate_plain i q { ty := w.ty, sender := s, peer := w.peer, val := w.val } hf'
+    rw [this] at hb
+    simp at hb; subst hb
+    simp at hm; subst hm
+    simp [deliverPlain, hv]
+
+/-- **completeness at the handler, plain types**: a message of a type registered one by one whose claimed sender
+the tree accepts for that peer is handed over at once, alone, with exactly that node. -/
+theorem c02_honest_plain_delivered (i : Inst) (q : Queues) (w : Wire) (s : Nat) (n : Node)
+    (hs : w.sender = some s) (hf : i.agg w.ty = false)
+    (hv : verify i.nodes { ty := w.ty, sender := s, peer := w.peer, val := w.val } = some n) :
+    receive i q w = (q, [[(n, { ty := w.ty, sender := s, peer := w.peer, val := w.val })]]) := by
+  simp [receive, hs, aggregate_plain i q { ty := w.ty, sender := s, peer := w.peer, val := w.val } hf,
+    dispatch, hf, deliverPlain, hv]
+
+theorem deliverBatch_all_ok (nodes : List Node) (b : List Msg) (h : ∀ m ∈ b, (verify nodes m).isSome) :
+    ∃ xs, deliverBatch nodes b = some xs ∧ xs.map Prod.snd = b := by
+  induction b with
+  | nil => exact ⟨[], by simp [deliverBatch]⟩
+  | cons m b ih =>
+    obtain ⟨xs, hx, hm⟩ := ih (fun m' hm' => h m' (by simp [hm']))
+    have := h m (by simp)
+    cases hv : verify nodes m with
+    | none => simp [hv] at this
+    | some n => exact ⟨(n, m) :: xs, by simp [deliverBatch, hv, hx], by simp [hm]⟩
+
+/-- **completeness at the handler, aggregated types**: when the batch `aggregate` releases holds only messages
+the tree accepts, the handler or channel receives exactly one slice holding exactly that batch. -/
+theorem c02_honest_batch_delivered (i : Inst) (q : Queues) (w : Wire) (s : Nat) (b : List Msg)
+    (hs : w.sender = some s) (hf : i.agg w.ty = true)
+    (hb : (aggregate i q { ty := w.ty, sender := s, peer := w.peer, val := w.val }).2 = some b)
+    (hok : ∀ m ∈ b, (verify i.nodes m).isSome) :
+    ∃ xs, (receive i q w).2 = [xs] ∧ xs.map Prod.snd = b := by
+  obtain ⟨xs, hx, hm⟩ := deliverBatch_all_ok i.nodes b hok
+  exact ⟨xs, by simp [receive, hs, hb, dispatch, hf, hx], hm⟩
+
+/-- completeness under the weaker premise real trees satisfy (node ids are derived from the server's key, so
+nodes with equal ids are hosted by the same server — also in trees that repeat servers, property C12): a
+message from a member over that member's connection is accepted, with a node of that id on that server. -/
+theorem c02_honest_accepted_same_server (nodes : List Node) (n : Node) (m : Msg)
+    (hn : n ∈ nodes) (hid : ∀ a ∈ nodes, ∀ b ∈ nodes, a.id = b.id → a.server = b.server)
+    (hs : m.sender = n.id) (hp : m.peer = some n.server) :
+    ∃ n', verify nodes m = some n' ∧ n'.id = n.id ∧ n'.server = n.server ∧ n' ∈ nodes := by
+  have hmem : n ∈ nodes.filter (fun x => x.id == m.sender) := by
+    apply List.mem_filter.mpr; exact ⟨hn, by simp [hs]⟩
+  cases hl : (nodes.filter (fun x => x.id == m.sender)).getLast? with
+  | none =>
+    have hnil := List.getLast?_eq_none_iff.mp hl
+    rw [hnil] at hmem; simp at hmem
+  | some x =>
+    have hx := List.mem_filter.mp (List.mem_of_getLast? hl)
+    have hxid : x.id = n.id := by have := hx.2; simp at this; rw [this, hs]
+    have hxs : x.server = n.server := hid x hx.1 n hn hxid
+    refine ⟨x, ?_, hxid, hxs, hx.1⟩
+    have hsearch : search nodes m.sender = some x := hl
+    simp [verify, hsearch, hp, hxs]
 
 /-! ### non-vacuity -/
 private def nodes4 : List Node := [⟨10, 0⟩, ⟨11, 1⟩, ⟨12, 2⟩, ⟨13, 3⟩]
@@ -170,8 +282,14 @@ example : run inst (fun _ => [])
 /-- one impersonating element poisons the whole aggregated batch: nothing is delivered -/
 example : run inst (fun _ => []) [⟨1, some 12, some 2, 7, none⟩, ⟨1, some 13, some 2, 8, none⟩] = [] := by decide
 
-/-- **the identity field inside the wire message is not an input**: whatever the sender writes into
-the `ServerIdentity` field of the message itself, every run delivers the same — only the identity the
+/-- the hypotheses of `c02_honest_accepted` / `_same_server` are met by this tree -/
+example : ∀ a ∈ nodes4, ∀ b ∈ nodes4, a.id = b.id → a = b := by decide
+/-- a tree that repeats a server (and hence a node id): the weaker premise holds, the stronger does not -/
+example : let t : List Node := [⟨10, 0⟩, ⟨11, 1⟩, ⟨10, 0⟩]
+    (∀ a ∈ t, ∀ b ∈ t, a.id = b.id → a.server = b.server) ∧ verify t ⟨3, 10, some 0, 5⟩ = some ⟨10, 0⟩ := by decide
+
+/-- **the identity field inside the wire message is not an input**: whatever the sender writes into the
+`ServerIdentity` field of the message itself, every run delivers the same — only the identity the
 transport attached to the connection (`Wire.peer`) is consulted. -/
 theorem c02_wire_identity_ignored (i : Inst) (q : Queues) (ws : List Wire) (f : Wire → Option Nat) :
     run i q (ws.map fun w => { w with claimed := f w }) = run i q ws := by
@@ -188,6 +306,225 @@ example : run { nodes := [⟨10, 0⟩, ⟨11, 1⟩, ⟨12, 2⟩, ⟨13, 3⟩], p
     (fun _ => []) [{ ty := 3, sender := some 12, peer := some 3, val := 7, claimed := some 2 },
                    { ty := 3, sender := some 12, peer := some 2, val := 8 }]
     = [[(⟨12, 2⟩, ⟨3, 12, some 2, 8⟩)]] := by decide
+
+/-! ### the transport side: the peer identity is the connection's, whatever the frame says -/
+
+/-- **the router always names a peer**: an envelope that comes out of `Router.handleConn` or of the send-to-self
+shortcut carries an identity — the branch of `createValueAndVerify` that skips the comparison (no identity)
+is not reachable from the network. -/
+theorem c02_router_always_names_peer (self : Nat) (ident : Nat → Nat) (a : Arrival) :
+    (arrive self ident a).peer = some (a.origin self ident) ∧
+    (arrive self ident a).sender = a.frame.sender ∧ (arrive self ident a).ty = a.frame.ty ∧
+    (arrive self ident a).val = a.frame.val := by
+  cases a <;> simp [arrive, process, handleConn, sendToSelf, Arrival.origin, Arrival.frame]
+
+/-- the protocol message the instance sees for an envelope -/
+def msgOf (w : Wire) : Option Msg := w.sender.map fun s => { ty := w.ty, sender := s, peer := w.peer, val := w.val }
+
+private theorem aggregate_provenance (i : Inst) (q : Queues) (m : Msg) :
+    (∀ t, ∀ x ∈ (aggregate i q m).1 t, x = m ∨ x ∈ q t) ∧
+    (∀ b, (aggregate i q m).2 = some b → ∀ x ∈ b, x = m ∨ ∃ t, x ∈ q t) := by
+  unfold aggregate
+  split
+  · exact ⟨fun t x hx => Or.inr hx, fun b hb x hx => by simp at hb; subst hb; simp at hx; exact Or.inl hx⟩
+  · simp only
+    split
+    · refine ⟨?_, ?_⟩
+      · intro t x hx
+        by_cases e : t = m.ty
+        · simp [e] at hx
+        · simp [e] at hx; exact Or.inr hx
+      · intro b hb x hx
+        simp at hb; subst hb
+        simp at hx
+        rcases hx with hx | hx
+        · exact Or.inr ⟨m.ty, hx⟩
+        · exact Or.inl hx
+    · refine ⟨?_, by simp⟩
+      intro t x hx
+      by_cases e : t = m.ty
+      · simp [e] at hx
+        rcases hx with hx | hx
+        · exact Or.inr (e ▸ hx)
+        · exact Or.inl hx
+      · simp [e] at hx; exact Or.inr hx
+
+private theorem dispatch_msgs (i : Inst) (ty : Nat) (b : List Msg) :
+    ∀ d ∈ dispatch i ty b, ∀ x ∈ d, x.2 ∈ b := by
+  intro d hd x hx
+  unfold dispatch at hd
+  split at hd
+  · cases hb : deliverBatch i.nodes b with
+    | none => simp [hb] at hd
+    | some xs =>
+      simp [hb] at hd; subst hd
+      have := (c02_batch_sound i.nodes b d hb).1
+      rw [← this]; exact List.mem_map.mpr ⟨x, hx, rfl⟩
+  · simp only [List.mem_map] at hd
+    obtain ⟨y, hy, rfl⟩ := hd
+    simp at hx; subst hx
+    have := (deliverPlain_sound i.nodes b).2
+    exact this.subset (List.mem_map.mpr ⟨_, hy, rfl⟩)
+
+/-- **nothing is made up**: every message a handler or channel receives is the image of an envelope that
+arrived (or was waiting in the queues before) — type, claimed sender, peer identity and payload unchanged. -/
+theorem c02_provenance (i : Inst) (q : Queues) (ws : List Wire) :
+    ∀ d ∈ run i q ws, ∀ x ∈ d, (∃ w ∈ ws, msgOf w = some x.2) ∨ ∃ t, x.2 ∈ q t := by
+  induction ws generalizing q with
+  | nil => simp [run]
+  | cons w ws ih =>
+    intro d hd x hx
+    simp only [run, List.mem_append] at hd
+    cases hs : w.sender with
+    | none =>
+      simp only [receive, hs] at hd
+      simp at hd
+      rcases ih q d hd x hx with ⟨w', hw', h⟩ | h
+      · exact Or.inl ⟨w', by simp [hw'], h⟩
+      · exact Or.inr h
+    | some s =>
+      have hp := aggregate_provenance i q { ty := w.ty, sender := s, peer := w.peer, val := w.val }
+      have hmsg : msgOf w = some { ty := w.ty, sender := s, peer := w.peer, val := w.val } := by simp [msgOf, hs]
+      rcases hd with hd | hd
+      · simp only [receive, hs] at hd
+        split at hd
+        · simp at hd
+        · rename_i b hb
+          have := dispatch_msgs i w.ty b d hd x hx
+          rcases hp.2 b hb x.2 this with h | h
+          · exact Or.inl ⟨w, by simp, by rw [hmsg, h]⟩
+          · exact Or.inr h
+      · have hq1 : (receive i q w).1 = (aggregate i q { ty := w.ty, sender := s, peer := w.peer, val := w.val }).1 := by
+          simp [receive, hs]
+        rcases ih _ d hd x hx with ⟨w', hw', h⟩ | ⟨t, h⟩
+        · exact Or.inl ⟨w', by simp [hw'], h⟩
+        · rw [hq1] at h
+          rcases hp.1 t x.2 h with h | h
+          · exact Or.inl ⟨w, by simp, by rw [hmsg, h]⟩
+          · exact Or.inr ⟨t, h⟩
+
+/-- **the statement of the property, transport included**: take any set of connections, each set up with some
+identity, and any sequence of frames arriving on them (or sent by the server to itself), every field of every
+frame chosen by its sender.  Whatever a handler or channel of the instance receives, each element names a node
+of the instance's tree, that node is the sender the frame claimed, and the node's server is the identity of the
+very connection the frame arrived on. -/
+theorem c02_net_sound (i : Inst) (self : Nat) (ident : Nat → Nat) (evs : List Arrival) :
+    ∀ d ∈ netRun i self ident (fun _ => []) evs, ∀ x ∈ d,
+      x.1 ∈ i.nodes ∧ x.1.id = x.2.sender ∧
+      ∃ a ∈ evs, a.frame.sender = some x.2.sender ∧ a.frame.ty = x.2.ty ∧ a.frame.val = x.2.val ∧
+                 x.1.server = a.origin self ident := by
+  intro d hd x hx
+  have hsound := c02_sound i (fun _ => []) (evs.map (arrive self ident)) d hd x hx
+  refine ⟨hsound.1, hsound.2.1, ?_⟩
+  rcases c02_provenance i (fun _ => []) (evs.map (arrive self ident)) d hd x hx with ⟨w, hw, hm⟩ | ⟨t, h⟩
+  · obtain ⟨a, ha, rfl⟩ := List.mem_map.mp hw
+    have hr := c02_router_always_names_peer self ident a
+    simp only [msgOf, Option.map_eq_some_iff] at hm
+    obtain ⟨s, hs, hx2⟩ := hm
+    refine ⟨a, ha, ?_, ?_, ?_, ?_⟩
+    · rw [← hr.2.1, hs, ← hx2]
+    · rw [← hr.2.2.1, ← hx2]
+    · rw [← hr.2.2.2, ← hx2]
+    · apply hsound.2.2; rw [← hx2]; exact hr.1
+  · simp at h
+
+/-- what the frames say about their origin is not an input: the deliveries are the same for every content of
+the frames' own identity field -/
+theorem c02_frame_identity_ignored (i : Inst) (self : Nat) (ident : Nat → Nat) (q : Queues) (evs : List Arrival)
+    (g : Frame → Option Nat) :
+    netRun i self ident q (evs.map fun a => match a with
+        | .conn c f => .conn c { f with claimed := g f }
+        | .self f => .self { f with claimed := g f }) = netRun i self ident q evs := by
+  unfold netRun
+  rw [List.map_map]
+  have := c02_wire_identity_ignored i q (evs.map (arrive self ident)) (fun w => g ⟨w.ty, w.sender, w.claimed, w.val⟩)
+  rw [← this, List.map_map]
+  congr 1
+  apply List.map_congr_left
+  intro a _
+  cases a <;> simp [arrive, process, handleConn, sendToSelf]
+
+/-- non-vacuity: server 3 claims node 12 (server 2) on its own connection and writes "server 2" into the frame:
+refused; server 2 on its own connection: delivered; the receiving server (1) sending to itself as its own node -/
+example : netRun { nodes := nodes4, parent := some 10, nChildren := 2, agg := fun _ => false } 1 id (fun _ => [])
+    [.conn 3 ⟨3, some 12, some 2, 7⟩, .conn 2 ⟨3, some 12, none, 8⟩, .self ⟨3, some 11, none, 9⟩, .self ⟨3, some 12, none, 9⟩]
+    = [[(⟨12, 2⟩, ⟨3, 12, some 2, 8⟩)], [(⟨11, 1⟩, ⟨3, 11, some 1, 9⟩)]] := by decide
+
+/-! ### unknown tree, flush, re-registration: the instance as the overlay drives it -/
+
+theorem c02_sound_ops (i : Inst) (s : St) (ops : List Op) :
+    ∀ d ∈ opRun i s ops, ∀ x ∈ d,
+      x.1 ∈ i.nodes ∧ x.1.id = x.2.sender ∧ ∀ p, x.2.peer = some p → x.1.server = p := by
+  induction ops generalizing s with
+  | nil => simp [opRun]
+  | cons o ops ih =>
+    intro d hd
+    simp only [opRun, List.mem_append] at hd
+    rcases hd with hd | hd
+    · cases o with
+      | msg w =>
+        simp only [opStep] at hd
+        split at hd
+        · simp at hd
+        · have := c02_sound i s.q [w] d (by simpa [run] using hd)
+          exact this
+      | treeArrives =>
+        simp only [opStep] at hd
+        split at hd
+        · simp at hd
+        · rename_i ws _
+          exact c02_sound i s.q ws d hd
+      | rereg => simp [opStep] at hd
+    · exact ih _ d hd
+
+/-- nothing is delivered while the tree is unknown; what was parked is judged by the same rule when the tree
+arrives, in arrival order -/
+theorem c02_parked_then_flushed (i : Inst) (q : Queues) (ws : List Wire) :
+    opRun i { q := q, parked := some [] } (ws.map Op.msg ++ [.treeArrives]) = run i q ws := by
+  have : ∀ (pre : List Wire), opRun i { q := q, parked := some pre } (ws.map Op.msg ++ [.treeArrives])
+      = run i q (pre ++ ws) := by
+    induction ws with
+    | nil => intro pre; simp [opRun, opStep]
+    | cons w ws ih =>
+      intro pre
+      simp only [List.map_cons, List.cons_append, opRun, opStep, List.nil_append]
+      rw [ih (pre ++ [w])]; simp
+  simpa using this []
+
+/-! ### the tree store: other stored trees do not matter -/
+
+/-- **membership is membership in the instance's own tree**: on a server whose store holds arbitrary other
+trees (same root server, overlapping members, nodes with the claimed id …), every delivered element names a
+node of the tree stored under the instance's tree id. -/
+theorem c02_store_membership (s : Store) (tid : Nat) (par : Option Nat) (k : Nat) (agg : Nat → Bool)
+    (nodes : List Node) (hget : s.get tid = some nodes) (q : Queues) (ws : List Wire) :
+    ∀ d ∈ run (instOf s tid par k agg) q ws, ∀ x ∈ d,
+      x.1 ∈ nodes ∧ x.1.id = x.2.sender ∧ ∀ p, x.2.peer = some p → x.1.server = p := by
+  have := c02_sound (instOf s tid par k agg) q ws
+  simpa [instOf, hget] using this
+
+/-- the other entries of the store are not an input of the instance -/
+theorem c02_other_trees_irrelevant (s s' : Store) (tid : Nat) (par : Option Nat) (k : Nat) (agg : Nat → Bool)
+    (h : s.get tid = s'.get tid) : instOf s tid par k agg = instOf s' tid par k agg := by
+  simp [instOf, h]
+
+/-- a member of another stored tree that is not a member of the instance's tree is refused — also over its own
+connection, also when the two trees have the same root -/
+theorem c02_member_of_other_stored_tree_refused (s : Store) (tid tid' : Nat) (par : Option Nat) (k : Nat)
+    (agg : Nat → Bool) (nodes other : List Node) (n : Node) (m : Msg)
+    (hget : s.get tid = some nodes) (_hother : s.get tid' = some other) (_hn : n ∈ other)
+    (_hs : m.sender = n.id) (_hp : m.peer = some n.server)
+    (hnot : ∀ a ∈ nodes, a.id ≠ n.id) :
+    verify (instOf s tid par k agg).nodes m = none := by
+  simp only [instOf, hget, Option.getD_some]
+  exact c02_unknown_sender_refused nodes m (by intro a ha; rw [_hs]; exact hnot a ha)
+
+/-- non-vacuity: the store holds the instance's tree (id 0) and a tree with the same root (server 0) that also
+has server 8; server 8 naming its own node over its own connection is refused, a member is accepted -/
+example :
+    let s : Store := [(0, nodes4), (5, [⟨10, 0⟩, ⟨18, 8⟩])]
+    run (instOf s 0 (some 10) 2 (fun _ => false)) (fun _ => [])
+      [⟨3, some 18, some 8, 1, none⟩, ⟨3, some 12, some 2, 2, none⟩] = [[(⟨12, 2⟩, ⟨3, 12, some 2, 2⟩)]] := by decide
 
 /-! ### the code regions the model stands for
 Regenerated from /repo's source on every run (`harness/cmd/astfacts` → `OnetVerif/Shapes.lean`): the
